@@ -121,6 +121,9 @@ fn run_program(id: &str, thread: usize, v: &SourceView, prog: &[Call], lines: &[
         CALLS.fetch_add(1, Ordering::Relaxed);
         match catch_unwind(AssertUnwindSafe(|| observe(v, c))) {
             Ok(got) => {
+                if std::env::var("SVLOOM_TRACE").is_ok() {
+                    eprintln!("sched {} thread {thread} {c:?} -> {got}", SCHEDULES.load(Ordering::Relaxed));
+                }
                 if got != want {
                     violation(id, "wrong-answer", thread, c, &got, &want);
                 }
